@@ -216,6 +216,84 @@ def term_table_rule(chk, src):
                   + " - otherwise the built operator is the sum of different terms than the ones given")
 
 
+def split_elementary_rule(chk, src, rule):
+    """abstract run of Op.split_elementary (helper methods from source) on operators whose elementary factors are tagged, with `Op(...)` and `Op.product` as recorders:
+    factors are grouped by the site of their degree of freedom, inside a site they keep the order in which they were written (operators on one site do not commute), the
+    per-site products come out with the sites ascending, every factor appears exactly once with its own symbol, degree of freedom and quantum number, the scalar factor is
+    returned beside them unchanged; an unknown degree of freedom is rejected"""
+    from ..syminterp import SymInterp, Sym, Blob, SymRaise
+    from .chain_rules import class_resolver
+    fi = src.func(OPF, "Op.split_elementary")
+    resolve = class_resolver(src, {"Op": OPF})
+    made = []
+
+    class OpNS(Sym):
+        def __call__(self, symbol, dofs=None, factor=1.0, qn=None):
+            o = Sym("elem", symbol=symbol, dofs=dofs, qn=qn, factor=factor, kind="elem")
+            made.append(o)
+            return o
+
+        def product(self, ops):
+            return Sym("product", parts=list(ops), kind="product")
+    cases = [
+        ("five factors on two sites, interleaved", ["s0", "s1", "s2", "s3", "s4"], ["d3", "d1", "d3", "d2", "d1"], {"d1": 0, "d2": 0, "d3": 1}, [[1, 3, 4], [0, 2]]),
+        ("sites given in descending order", ["s0", "s1", "s2"], ["d9", "d5", "d1"], {"d9": 7, "d5": 4, "d1": 2}, [[2], [1], [0]]),
+        ("all factors on one site", ["s0", "s1", "s2"], ["a", "b", "a"], {"a": 3, "b": 3}, [[0, 1, 2]]),
+    ]
+    for name, syms, dofs, mapping, want in cases:
+        del made[:]
+        me = Sym("op", symbol=" ".join(syms), split_symbol=list(syms), dofs=list(dofs), qn_list=[f"qn{k}" for k in range(len(syms))], _factor="the factor", factor="the factor")
+        me._cls = "Op"
+        it = SymInterp(src, resolve, {"Op": OpNS("Op"), "logger": Blob("logger")})
+        it.max_depth = 8
+        probs = []
+        try:
+            res = it.call_function(fi, [me, dict(mapping)])
+        except SymRaise as e:
+            res = None
+            probs.append(f"raises {e}")
+        if res is not None:
+            if not (isinstance(res, tuple) and len(res) == 2 and isinstance(res[0], list)):
+                probs.append(f"returns {res!r}; expected (list of per-site operators, factor)")
+            else:
+                ops, fac = res
+                if fac != "the factor":
+                    probs.append(f"factor {fac!r}; expected the operator's factor unchanged")
+                got = []
+                for o in ops:
+                    parts = o.parts if getattr(o, "kind", None) == "product" else [o]
+                    idxs = []
+                    for e_ in parts:
+                        k_ = syms.index(e_.symbol) if getattr(e_, "symbol", None) in syms else None
+                        if k_ is None or e_.dofs != dofs[k_] or e_.qn != f"qn{k_}":
+                            probs.append(f"elementary factor ({getattr(e_, 'symbol', e_)!r}, {getattr(e_, 'dofs', None)!r}, {getattr(e_, 'qn', None)!r}) is not one of the operator's factors with its own degree of freedom and quantum number")
+                        idxs.append(k_)
+                    got.append(idxs)
+                if got != want:
+                    probs.append(f"per-site products {got} (indices of the factors as written); expected {want}: sites ascending, written order inside a site")
+        chk.ob(rule, f"split_elementary[{name}]", not probs, fi.where, probs[:3] or "grouped by site, written order kept", "grouped by site, written order kept", line=fi.node.lineno,
+               detail="operators on one site do not commute: their order inside a term must be kept when the term is split by site, and the sites must come out ascending: " + (probs[0] if probs else ""))
+    # single factor: returned as it is; unknown degree of freedom: rejected
+    del made[:]
+    me = Sym("op", symbol="s0", split_symbol=["s0"], dofs=["d1"], qn_list=["qn0"], _factor="the factor", factor="the factor")
+    me._cls = "Op"
+    it = SymInterp(src, resolve, {"Op": OpNS("Op"), "logger": Blob("logger")})
+    res = it.call_function(fi, [me, {"d1": 0}])
+    ok1 = isinstance(res, tuple) and len(res) == 2 and res[1] == "the factor" and isinstance(res[0], list) and len(res[0]) == 1 and getattr(res[0][0], "symbol", None) == "s0" \
+        and res[0][0].dofs in (["d1"], "d1") and res[0][0].qn in (["qn0"], "qn0")
+    chk.ob(rule, "split_elementary[single factor]", ok1, fi.where, repr(res)[:120], "([the factor's operator], factor)", line=fi.node.lineno)
+    me = Sym("op", symbol="s0 s1", split_symbol=["s0", "s1"], dofs=["d1", "nowhere"], qn_list=["qn0", "qn1"], _factor="the factor", factor="the factor")
+    me._cls = "Op"
+    it = SymInterp(src, resolve, {"Op": OpNS("Op"), "logger": Blob("logger")})
+    try:
+        res = it.call_function(fi, [me, {"d1": 0}])
+        rejected = False
+    except (SymRaise, KeyError) as e:
+        res, rejected = str(e), True
+    chk.ob(rule, "split_elementary[unknown degree of freedom] is rejected", rejected, fi.where, repr(res)[:100], "an exception", line=fi.node.lineno,
+           detail="a term on a degree of freedom the model does not have must not be dropped or put on some site silently")
+
+
 def run(chk):
     src = chk.src
     chk.explanation = (
@@ -499,7 +577,13 @@ def run(chk):
     class _Fac(Sym):
         def __mul__(self, o):
             return (self._name, o)
-    it2 = SymInterp(src, None, {"np": Sym("np", full=lambda shape, fill, dtype=None: _Grid(shape), ndenumerate=lambda g: [(k, g.cells[k]) for k in sorted(g.cells)])})
+    import itertools as _it
+
+    def _ndindex(*shape):
+        shape = tuple(shape[0]) if len(shape) == 1 and isinstance(shape[0], (tuple, list)) else tuple(shape)
+        return list(_it.product(*[range(n_) for n_ in shape]))
+    it2 = SymInterp(src, None, {"np": Sym("np", full=lambda shape, fill=None, dtype=None: _Grid(shape), empty=lambda shape, dtype=None: _Grid(shape), zeros=lambda shape, dtype=None: _Grid(shape),
+                                          ndenumerate=lambda g: [(k, g.cells[k]) for k in sorted(g.cells)], ndindex=_ndindex)})
     prim = [f"prim{j}" for j in range(4)]
     in_ops = ["in0", "in1", "in2"]
     out_ops = [[Sym("c00", symbol=(0, 1), factor=_Fac("f00")), Sym("c01", symbol=(2, 3), factor=_Fac("f01"))], [Sym("c10", symbol=(1, 0), factor=_Fac("f10"))]]
@@ -541,15 +625,7 @@ def run(chk):
                detail=f"{qual} must chain the bond and keep (row of previous sites, row of this site), (column ..) adjacent before merging")
     term_table_rule(chk, src)
     # ---- split order / dedup
-    se = src.func(OPF, "Op.split_elementary")
-    loops = [n for n in ast.walk(se.node) if isinstance(n, ast.For)]
-    z = [unparse(l.iter).replace(" ", "") for l in loops]
-    chk.ob("split-order", "symbols visited in written order", "zip(self.split_symbol,self.dofs,self.qn_list)" in z, se.where, z, "zip(self.split_symbol, self.dofs, self.qn_list)", line=se.node.lineno)
-    chk.ob("split-order", "sites visited in ascending order", "sorted(grouped_op_info.keys())" in z, se.where, z, "sorted(grouped_op_info.keys())", line=se.node.lineno)
-    ap = [unparse(c).replace(" ", "") for c in ast.walk(se.node) if isinstance(c, ast.Call) and isinstance(c.func, ast.Attribute) and c.func.attr in ("append", "insert", "appendleft")
-          and "grouped_op_info" in unparse(c.func.value)]
-    chk.ob("split-order", "per-site list built by append (no reordering)", len(ap) == 1 and ap[0].startswith("grouped_op_info[site_idx].append("), se.where, ap, "grouped_op_info[site_idx].append(...)",
-           line=se.node.lineno, detail="operators on one site do not commute: their order inside a term must be kept when the term is split by site")
+    split_elementary_rule(chk, src, "split-order")
     dd = src.func(SYM, "_deduplicate_table")
     txt = unparse(dd.node).replace(" ", "")
     ok = "np.unique(table,axis=0,return_inverse=True)" in txt and "factor=mask.dot(factor)" in txt and "coord[:,0],coord[:,1]" in txt
